@@ -55,7 +55,7 @@ def diff_snap(a, b):
 
 NONMUT = ["add", "sub", "neg", "multiply", "bandpass", "sel", "isel", "getitem", "mean", "sum", "std", "flatten",
           "where", "drop_invalid", "copy", "deepcopy", "to_1d", "to_2d", "interp_time", "interp_freq", "interp_freq_nearest",
-          "cdf", "extrapolate_tail", "bulk"]
+          "interp_freq_own_grid", "interp_time_own_grid", "cdf", "extrapolate_tail", "bulk"]
 INPLACE = ["fillna", "multiply_inplace", "setitem", "raw_write_deepcopy"]
 
 
@@ -163,6 +163,13 @@ def apply_op(o, pool):
             return None, None
         t = a.time.values
         return a.interpolate({"time": np.array([t[0] + (t[1] - t[0]) // 2])}), None
+    if k == "interp_freq_own_grid":
+        # "interpolating" onto the grid the spectrum already has still returns a new object
+        return a.interpolate_frequency(a.frequency.values.copy()), None
+    if k == "interp_time_own_grid":
+        if "time" not in lead:
+            return None, None
+        return a.interpolate({"time": a.time.values.copy()}), None
     if k in ("interp_freq", "interp_freq_nearest"):
         newf = (f[:-1] + f[1:]) / 2
         if hasattr(a, "as_frequency_direction_spectrum"):
